@@ -45,7 +45,7 @@ class ScanHooks(SelfHooks):
     def __init__(self, model, cls, tokens, symbolic_len=False):
         SelfHooks.__init__(self, model, cls)
         self.tokens = tokens
-        self.symbolic_len = symbolic_len
+        self.symbolic_len = False
         self.subs = []       # (index value, assumptions, n_appends) at cases[...] in pushTokens
 
     def mk(self, i):
@@ -79,6 +79,9 @@ class ScanHooks(SelfHooks):
                 return A.Sym('min(%d,%s)' % (ints[0], syms[0].label), attrs={'valid_index_of': syms[0].attrs['valid_index_of']})
         if fname == 'len' and len(args) == 1 and self.symbolic_len and isinstance(node.args[0], ast.Name):
             return A.Sym('len(%s)' % node.args[0].id, attrs={'len_of': node.args[0].id})
+        if fname == 'self.pushTokens' and len(args) == 1:
+            state.env['__pushed'] = list(args[0]) if isinstance(args[0], list) else args[0]
+            return A.NONE
         if fname == 'self.pushTokens' and len(node.args) == 1 and isinstance(node.args[0], ast.Subscript):
             sub = node.args[0]
             idx = interp.ev(sub.slice, state)
@@ -109,14 +112,19 @@ class ScanHooks(SelfHooks):
         return None
 
 
-def run_scan(m, fn, TeX, tokens, which, symbolic_len=False):
-    hooks = ScanHooks(m, TeX, tokens, symbolic_len)
-    loops = [n for n in M.walk_no_nested(fn.node) if isinstance(n, ast.For)]
-    need(loops, 'processIfContent has no scanning loop')
-    hooks.loop_end = max(getattr(l, 'end_lineno', l.lineno) for l in loops)
-    it = ScanInterp(model=m, scope=fn, hooks=hooks, max_iter=1, exc_edges=False)
-    outs = it.run_function(fn, env={'which': which})
-    return outs, hooks
+def run_scan(m, fn, TeX, tokens, which):
+    """Interpret processIfContent over a token sequence (tokens known by macro name only).
+    Returns the set of observable outcomes (kind, selected branch, tokens consumed)."""
+    hooks = ScanHooks(m, TeX, tokens)
+    hooks.should_inline = A.private_only
+    hooks.keep = lambda ev: False
+    it = ScanInterp(model=m, scope=fn, hooks=hooks, max_iter=len(tokens) + 2, exc_edges=False, precise_exc=True, inline=3)
+    outs = it.run_function(fn, env={'which': which, 'debug': False})
+    got = set()
+    for kind, s, v in outs:
+        sel = s.env.get('__pushed', '<nothing pushed>')
+        got.add((kind if kind != 'raise' else 'raise %s' % v, repr(names_of(sel)) if isinstance(sel, list) else repr(sel), s.env.get('__pos', 0)))
+    return got
 
 
 def names_of(lst):
@@ -135,81 +143,60 @@ def r31_r32(chk, m):
     TeX = m.cls('plasTeX.TeX', 'TeX')
     fn = m.func('plasTeX.TeX', 'TeX.processIfContent')
     chk.analysed(fn)
-    R2 = chk.rule('R3.2', 'branch scanner table: token kind {newif, if*, fi, else, or, other} x nesting {0, >0} '
-                  '-> copied / new case / terminates, nesting +1/-1/0', 12 + 6)
-    # each cell: token list, expected final `cases` (names), expected nesting, loop ended by break?
+    R2 = chk.rule('R3.2', 'branch selection of processIfContent, decided on token sequences (tokens known by name): the tokens of '
+                  'exactly the selected branch are pushed back, skipping respects nesting (an inner \\else, \\or or \\fi never ends '
+                  'the outer conditional), \\newif\\iffoo does not open a conditional, the scan stops at the matching \\fi', 15)
     OPEN = 'ifnum'
-    cells = [
-        ('if* @0', [OPEN], [[OPEN]], 1),
-        ('if* @>0', [OPEN, 'ifx'], [[OPEN, 'ifx']], 2),
-        ('fi @0', ['fi', 'AFTER'], [[]], 0),
-        ('fi @>0', [OPEN, 'fi'], [[OPEN, 'fi']], 0),
-        ('else @0', ['else'], [[], []], 0),
-        ('else @>0', [OPEN, 'else'], [[OPEN, 'else']], 1),
-        ('or @0', ['or'], [[], []], 0),
-        ('or @>0', [OPEN, 'or'], [[OPEN, 'or']], 1),
-        ('other @0', ['relax'], [['relax']], 0),
-        ('other @>0', [OPEN, 'relax'], [[OPEN, 'relax']], 1),
-        ('newif @0', ['newif', 'iffoo'], [['newif', 'iffoo']], 0),
-        ('newif @>0', [OPEN, 'newif', 'iffoo'], [[OPEN, 'newif', 'iffoo']], 1),
-    ]
-    for name, toks, want_cases, want_nest in cells:
-        outs, hooks = run_scan(m, fn, TeX, toks, True)
-        chk.paths += len(outs)
-        got = set()
-        for kind, s, v in outs:
-            cases = s.env.get('cases')
-            nest = s.env.get('nesting')
-            consumed = s.env.get('__pos', 0)
-            # drop the padding appended after the loop ("else case for ifs without elses")
-            got.add((repr(names_of(cases)) if isinstance(cases, list) else repr(cases), repr(nest), consumed))
-        ok = False
-        detail = sorted(got)
-        if len(got) == 1:
-            (c, n, consumed), = got
-            cases = eval(c) if c.startswith('[') else None
-            if cases is not None:
-                # tolerate trailing empty padding case(s) added after the loop
-                while len(cases) > len(want_cases) and cases[-1] == []:
-                    cases.pop()
-                want_consumed = 1 if name == 'fi @0' else len(toks)
-                ok = cases == want_cases and n == repr(want_nest) and consumed == want_consumed
-        chk.verdict(R2, 'scanner cell %s' % name, ok,
-                    'tokens %s: scanner leaves cases/nesting/consumed = %s; TeX rule gives cases=%s nesting=%d'
-                    % (toks, detail, want_cases, want_nest), chk.where(fn), str(detail))
-    # whole-branch selections (sequence level, still over token kinds only)
     seqs = [
-        (['a', 'else', 'b', 'fi', 'c'], True, ['a']),
-        (['a', 'else', 'b', 'fi', 'c'], False, ['b']),
-        (['a', 'fi', 'c'], False, []),
-        ([OPEN, 'x', 'else', 'y', 'fi', 'a', 'else', 'b', 'fi'], True, [OPEN, 'x', 'else', 'y', 'fi', 'a']),
-        ([OPEN, 'x', 'else', 'y', 'fi', 'a', 'else', 'b', 'fi'], False, ['b']),
-        (['a', 'or', 'b', 'or', 'c', 'else', 'd', 'fi'], 2, ['c']),
+        ('true branch', ['a', 'else', 'b', 'fi', 'c'], True, ['a'], 4),
+        ('else branch', ['a', 'else', 'b', 'fi', 'c'], False, ['b'], 4),
+        ('false without else', ['a', 'fi', 'c'], False, [], 2),
+        ('true without else', ['a', 'fi', 'c'], True, ['a'], 2),
+        ('empty true branch', ['fi', 'AFTER'], True, [], 1),
+        ('nested conditional in the true branch', [OPEN, 'x', 'else', 'y', 'fi', 'a', 'else', 'b', 'fi'], True, [OPEN, 'x', 'else', 'y', 'fi', 'a'], 9),
+        ('nested conditional skipped', [OPEN, 'x', 'else', 'y', 'fi', 'a', 'else', 'b', 'fi'], False, ['b'], 9),
+        ('inner fi does not end the outer conditional', [OPEN, 'fi', 'a', 'fi', 'rest'], True, [OPEN, 'fi', 'a'], 4),
+        ('inner or belongs to the inner conditional', ['ifcase', 'x', 'or', 'y', 'fi', 'a', 'else', 'b', 'fi'], False, ['b'], 9),
+        ('doubly nested', [OPEN, 'ifx', 'fi', 'fi', 'a', 'fi'], True, [OPEN, 'ifx', 'fi', 'fi', 'a'], 6),
+        ('newif does not open a conditional', ['newif', 'iffoo', 'a', 'else', 'b', 'fi'], True, ['newif', 'iffoo', 'a'], 6),
+        ('newif inside a nested conditional', [OPEN, 'newif', 'iffoo', 'fi', 'a', 'fi'], True, [OPEN, 'newif', 'iffoo', 'fi', 'a'], 6),
+        ('case 0', ['a', 'or', 'b', 'or', 'c', 'else', 'd', 'fi'], 0, ['a'], 8),
+        ('case 1', ['a', 'or', 'b', 'or', 'c', 'else', 'd', 'fi'], 1, ['b'], 8),
+        ('case 2', ['a', 'or', 'b', 'or', 'c', 'else', 'd', 'fi'], 2, ['c'], 8),
     ]
-    for toks, which, want in seqs:
-        outs, hooks = run_scan(m, fn, TeX, toks, which)
-        chk.paths += len(outs)
-        pushed = set()
-        for kind, s, v in outs:
-            evs = [e for e in s.trace if e[0] == 'call' and e[1] == 'self.pushTokens']
-            cases = s.env.get('cases')
-            w = s.env.get('which')
-            if isinstance(cases, list) and isinstance(w, int) and not isinstance(w, bool) and -len(cases) <= w < len(cases) and len(evs) == 1:
-                pushed.add(repr(names_of(cases[w])))
-            else:
-                pushed.add('?(%r, which=%r, pushes=%d)' % (names_of(cases) if isinstance(cases, list) else cases, w, len(evs)))
-        chk.verdict(R2, 'select %r from %s' % (which, ' '.join(toks)), pushed == {repr(want)},
-                    'selector %r over token kinds %s pushes back %s, expected %s' % (which, toks, sorted(pushed), want),
-                    chk.where(fn), str(sorted(pushed)))
+    for label, toks, which, want, consumed in seqs:
+        got = run_scan(m, fn, TeX, toks, which)
+        chk.paths += len(got)
+        chk.decide(R2, 'select %r from %s' % (which, ' '.join(toks)), got, {('return', repr(want), consumed)},
+                   '%s: selector %r over the tokens %s gives (outcome, branch pushed back, tokens consumed) = %s, expected the branch %s '
+                   'with %d tokens consumed' % (label, which, toks, sorted(got), want, consumed), chk.where(fn))
+    R1 = chk.rule('R3.1', 'a selector outside the listed cases (negative or too large, with or without \\else) takes the \\else branch if '
+                  'there is one and nothing otherwise - never an index error', 6)
+    cases3 = ['a', 'or', 'b', 'or', 'c']
+    for label, toks, which, want in (
+            ('selector = number of cases, with else', cases3 + ['else', 'd', 'fi'], 3, ['d']),
+            ('selector far too large, with else', cases3 + ['else', 'd', 'fi'], 7, ['d']),
+            ('negative selector, with else', cases3 + ['else', 'd', 'fi'], -1, ['d']),
+            ('selector = number of cases, no else', cases3 + ['fi'], 3, []),
+            ('selector far too large, no else', cases3 + ['fi'], 9, []),
+            ('negative selector, no else', cases3 + ['fi'], -2, []),
+            ('last listed case, no else', cases3 + ['fi'], 2, ['c'])):
+        got = run_scan(m, fn, TeX, toks, which)
+        chk.paths += len(got)
+        chk.decide(R1, 'processIfContent: %s' % label, got, {('return', repr(want), len(toks))},
+                   '\\ifcase %d over %s gives %s, expected the branch %s (e.g. \\ifcase 5 a\\or b\\else c\\fi must give c)'
+                   % (which, toks, sorted(got), want), chk.where(fn))
 
     # R3.6: how is an opening conditional recognised?
     R6 = chk.rule('R3.6', 'the scanner recognises opening conditionals by a name prefix; every macro class whose '
                   'TeX name has that prefix must be a conditional (IfCommand/NewIf) and vice versa', 30)
     probe = {}
-    for nm in ('ifthenelse', 'iff', 'if'):
-        outs, hooks = run_scan(m, fn, TeX, [nm], True)
-        probe[nm] = {repr(s.env.get('nesting')) for kind, s, v in outs}
-    prefix_based = probe['ifthenelse'] == {'1'} and probe['iff'] == {'1'}
+    for nm in ('ifthenelse', 'iff'):
+        # nested (counted as an opening conditional) iff the first \fi does not end the scan
+        got = run_scan(m, fn, TeX, [nm, 'fi', 'a', 'fi'], True)
+        probe[nm] = {g[2] for g in got}
+    need(all(v and v <= {2, 4} for v in probe.values()), 'processIfContent: the recognition of opening conditionals could not be probed: %s' % probe)
+    prefix_based = probe['ifthenelse'] == {4} and probe['iff'] == {4}
     IfCommand = m.cls('plasTeX.Base.TeX.Primitives', 'IfCommand')
     NewIf = m.cls('plasTeX', 'NewIf')
     conds = set()
@@ -231,65 +218,6 @@ def r31_r32(chk, m):
             else:
                 chk.ok(R6, 'ifprefix:%s' % nm, 'scanner is class based')
     chk.note('recognition predicate of the branch scanner: %s' % ('name prefix "if"' if prefix_based else 'not prefix based'))
-
-    # R3.1
-    R1 = chk.rule('R3.1', 'the index selecting the branch is within bounds on every path (booleans -> 0/1 with the '
-                  'else padding present; integers guarded by a range test that sends out-of-range selectors to the else case)', 3)
-    for label, which in (('True', True), ('False', False), ('integer selector', A.Sym('selector', truthy=None))):
-        outs, hooks = run_scan(m, fn, TeX, ['a', 'fi'], which, symbolic_len=True)
-        chk.paths += len(outs)
-        need(hooks.subs, 'processIfContent no longer pushes back cases[<selector>]: R3.1 must be re-anchored')
-        bad = []
-        for lst, idxtext, idx, assumed, appends, vals in hooks.subs:
-            if not bounded(idx, idxtext, assumed, appends, lst, vals):
-                bad.append('%s[%s] with %s under %s' % (lst, idxtext, idx, {k: v for k, v in assumed.items() if idxtext in k} or 'no range test'))
-        chk.verdict(R1, 'processIfContent: selector %s' % label, not bad,
-                    'branch index may be out of range (e.g. \\ifcase 5 a\\or b\\else c\\fi): ' + '; '.join(sorted(set(bad))),
-                    chk.where(fn), '%d subscript path(s) bounded' % len(hooks.subs))
-
-
-def bounded(idx, idxtext, assumed, appends, lst, vals):
-    """Is `lst[idx]` provably within bounds on this path?"""
-    if isinstance(idx, A.Sym) and idx.attrs.get('valid_index_of') == lst:
-        return True
-    if isinstance(idx, bool):
-        return False
-    if isinstance(idx, int):
-        # list starts with one entry; every append after the loop adds one
-        if 0 <= idx <= len(appends):
-            return True
-        return upper(idxtext, assumed, lst, vals)
-    lower = False
-    for k, v in assumed.items():
-        kk = k.replace(' ', '')
-        if kk in ('%s<0' % idxtext, '0>%s' % idxtext) and v is False:
-            lower = True
-        if kk in ('%s>=0' % idxtext, '0<=%s' % idxtext) and v is True:
-            lower = True
-    return lower and upper(idxtext, assumed, lst, vals)
-
-
-def upper(idxtext, assumed, lst, vals):
-    import re
-    for k, v in assumed.items():
-        mm = re.fullmatch(r'%s (>=|>|<|<=) (.+)' % re.escape(idxtext), k)
-        if not mm:
-            continue
-        op, rhs = mm.group(1), mm.group(2)
-        # rhs must be a valid index (len-1 / variable holding it) or len(lst)
-        v_rhs = vals.get(rhs)
-        is_len = isinstance(v_rhs, A.Sym) and v_rhs.attrs.get('len_of') == lst
-        is_last = isinstance(v_rhs, A.Sym) and v_rhs.attrs.get('valid_index_of') == lst
-        if op == '>=' and v is False and (is_len or is_last):
-            return True
-        if op == '>' and v is False and is_last:
-            return True
-        if op == '<' and v is True and (is_len or is_last):
-            return True
-        if op == '<=' and v is True and is_last:
-            return True
-    return False
-
 
 
 
@@ -344,41 +272,63 @@ def r33_r34(chk, m):
         chk.verdict(R3, '%s.invoke' % c.fullname, not bad, '; '.join(sorted(set(bad))), chk.where(fn),
                     '%d path(s)' % len(outs))
 
-    R4 = chk.rule('R3.4', 'relation <-> operator: the branch guarded by "<", ">", "=" selects with a<b, a>b, a==b '
-                  '(first-read op second-read); ifodd uses % 2', 7)
-    for cname, second in (('ifnum', 'read'), ('ifdim', 'attr')):
+    R4 = chk.rule('R3.4', 'relation <-> operator, decided on concrete operands: \\ifnum / \\ifdim with "<", ">", "=" select the true '
+                  'branch exactly when first < second, first > second, first == second (first-read op second-read); \\ifodd selects '
+                  'it exactly for odd numbers', 7)
+
+    class RelHooks(SelfHooks):
+        def __init__(self, model, cls, second):
+            SelfHooks.__init__(self, model, cls)
+            self.second = second
+
+        def call(self, interp, node, fname, args, kwargs, state):
+            if fname.endswith('.processIfContent') and args:
+                state.env['__sel'] = state.env.get('__sel', ()) + (args[0],)
+                return A.NONE
+            if fname in ('tex.readNumber', 'tex.readInteger', 'tex.readDimen'):
+                return self.second
+            if fname == 'self.parse':
+                return A.NONE
+            return None
+
+        def keep(self, ev):
+            return False
+    import operator
+    for cname in ('ifnum', 'ifdim'):
         c = m.cls('plasTeX.Base.TeX.Primitives', cname)
         fn = m.find_method(c, 'invoke')
         chk.analysed(fn)
-        for rel, want in (('<', ast.Lt), ('>', ast.Gt), ('=', ast.Eq)):
-            hooks = IfHooks()
-            it = A.Interp(model=m, scope=fn, hooks=hooks, max_iter=1, exc_edges=False)
-            attrs = {'rel': rel, 'a': A.Sym('A')}
-            if second == 'attr':
-                attrs['b'] = A.Sym('B')
-            outs = it.run_function(fn, env={'self.attributes': attrs})
-            found = []
-            for kind, s, v in outs:
-                node = s.env.get('__picnode')
-                if kind != 'return' or node is None:
-                    found.append('no selection')
-                    continue
-                arg = node.args[0]
-                found.append(describe_cmp(it, arg, s))
-            a, b = 'A', ('B' if second == 'attr' else 'read0')
-            want_s = '%s %s %s' % (a, {ast.Lt: '<', ast.Gt: '>', ast.Eq: '=='}[want], b)
-            chk.verdict(R4, '\\%s relation %s' % (cname, rel), found == [want_s],
-                        '\\%s with relation %r selects on %s, expected %s' % (cname, rel, found, want_s),
-                        chk.where(fn), str(found))
+        for rel, op in (('<', operator.lt), ('>', operator.gt), ('=', operator.eq)):
+            got = {}
+            for a, b in ((1, 2), (2, 1), (2, 2), (-3, 1)):
+                h = RelHooks(m, c, b)
+                h.should_inline = A.private_only
+                it = A.Interp(model=m, scope=fn, hooks=h, max_iter=2, exc_edges=False, inline=2)
+                outs = it.run_function(fn, env={'self.attributes': {'rel': rel, 'a': a, 'b': b}})
+                chk.paths += len(outs)
+                res = set()
+                for kind, s2, v in outs:
+                    sel = s2.env.get('__sel', ())
+                    res.add((kind, tuple(x if isinstance(x, (bool, int)) else 'TOP' for x in sel)))
+                got[(a, b)] = res
+            want = {k: {('return', (op(*k),))} for k in got}
+            flat = {repr((k, sorted(v, key=repr))) for k, v in got.items()}
+            chk.decide(R4, '\\%s relation %s' % (cname, rel), flat, {repr((k, sorted(v, key=repr))) for k, v in want.items()},
+                       '\\%s with relation %r: (first, second) -> selections %s; expected exactly one selection, true iff first %s second'
+                       % (cname, rel, {k: sorted(v, key=repr) for k, v in got.items()}, rel if rel != '=' else '=='), chk.where(fn))
     c = m.cls('plasTeX.Base.TeX.Primitives', 'ifodd')
     fn = m.find_method(c, 'invoke')
-    pic = [n for n in M.calls_in(fn.node) if M.call_name(n).endswith('processIfContent')]
-    ok = False
-    if len(pic) == 1:
-        src = text(pic[0].args[0]).replace(' ', '')
-        import re
-        ok = re.fullmatch(r'bool\(.+%2\)|.+%2==1|.+%2!=0|\(.+%2\)==1|bool\(.+&1\)', src) is not None
-    chk.verdict(R4, '\\ifodd', ok, '\\ifodd does not select on "number %% 2": %s' % [text(p.args[0]) for p in pic], chk.where(fn))
+    chk.analysed(fn)
+    got = {}
+    for n in (3, 4, -3, 0, 7):
+        h = RelHooks(m, c, n)
+        h.should_inline = A.private_only
+        it = A.Interp(model=m, scope=fn, hooks=h, max_iter=2, exc_edges=False, inline=2)
+        outs = it.run_function(fn, env={'self.attributes': {}})
+        got[n] = {(kind, tuple(bool(x) if isinstance(x, (bool, int)) else 'TOP' for x in s2.env.get('__sel', ()))) for kind, s2, v in outs}
+    flat = {repr((k, sorted(v, key=repr))) for k, v in got.items()}
+    chk.decide(R4, '\\ifodd', flat, {repr((k, [('return', (k % 2 == 1,))])) for k in got},
+               '\\ifodd: number -> selections %s; expected true exactly for odd numbers' % {k: sorted(v, key=repr) for k, v in got.items()}, chk.where(fn))
 
 
 def describe_cmp(it, arg, s):
@@ -422,7 +372,8 @@ def r35(chk, m):
     fn = m.func('plasTeX.Context', 'Context.newif')
     chk.analysed(fn)
     hooks = NewifHooks(m, Context)
-    it = A.Interp(model=m, scope=fn, hooks=hooks, max_iter=1, exc_edges=False)
+    hooks.should_inline = A.private_only
+    it = A.Interp(model=m, scope=fn, hooks=hooks, max_iter=1, exc_edges=False, inline=2)
     outs = it.run_function(fn, env={'name': 'iffoo', 'initial': A.Sym('INITIAL')})
     need(len(outs) == 1, 'Context.newif is not single-path for a fresh name')
     NewIf, IfTrue, IfFalse = (m.cls('plasTeX', n) for n in ('NewIf', 'IfTrue', 'IfFalse'))
@@ -443,18 +394,42 @@ def r35(chk, m):
     chk.verdict(R5, 'newif: \\foofalse', has('foofalse', IfFalse, 'ifclass', sw),
                 'newif does not register \\foofalse as IfFalse bound to the switch: %r' % (list(byname),), chk.where(fn))
     # setters
-    for cls, meth, setter, val in ((IfTrue, 'invoke', 'setTrue', True), (IfFalse, 'invoke', 'setFalse', False)):
-        f = m.find_method(cls, meth)
+    class SwitchHooks(SelfHooks):
+        def lookup(self, interp, name, state):
+            return None         # every class-level value is on the heap objects
+
+        def call(self, interp, node, fname, args, kwargs, state):
+            if fname == 'type' and len(args) == 1 and isinstance(args[0], A.Obj) and '__type' in args[0].attrs:
+                return args[0].attrs['__type']
+            if fname.endswith('.processIfContent') and args:
+                state.env['__sel'] = state.env.get('__sel', ()) + (args[0],)
+                return A.NONE
+            return None
+
+        def keep(self, ev):
+            return False
+
+    def run_switch(cls, initial):
+        f = m.find_method(cls, 'invoke')
         chk.analysed(f)
-        calls = [M.call_name(c) for c in M.calls_in(f.node)]
-        target = [c for c in calls if c.endswith('ifclass.' + setter) or c.endswith('ifclass.setState')]
-        sf = m.find_method(NewIf, setter)
-        stores = [(text(n.targets[0]), text(n.value)) for n in M.walk_no_nested(sf.node) if isinstance(n, ast.Assign)] if sf else []
-        ok = bool(target) and ('cls.state', str(val)) in stores
-        chk.verdict(R5, '%s.invoke -> state=%s' % (cls.name, val), ok,
-                    '%s.invoke must set the shared switch to %s (calls %s; %s stores %s)' % (cls.name, val, calls, setter, stores), chk.where(f))
-    f = m.find_method(NewIf, 'invoke')
-    pic = [n for n in M.calls_in(f.node) if M.call_name(n).endswith('processIfContent')]
-    ok = len(pic) == 1 and text(pic[0].args[0]).replace(' ', '') in ('type(self).state', 'self.state', 'self.__class__.state')
-    chk.verdict(R5, 'NewIf.invoke selects on the switch state', ok,
-                'NewIf.invoke selects on %s' % [text(p.args[0]) for p in pic], chk.where(f))
+        switch = A.Obj('switch', {'state': initial}, cls=NewIf)
+        if cls is NewIf:
+            this = A.Obj('instance', {'__type': switch, '__class__': switch, 'state': initial})
+        else:
+            setter = A.Obj('setterclass', {'ifclass': switch}, cls=cls)
+            this = A.Obj('instance', {'__type': setter, '__class__': setter, 'ifclass': switch})
+        h = SwitchHooks(m, cls)
+        it = A.Interp(model=m, scope=f, hooks=h, max_iter=1, exc_edges=False, inline=3, heap=True)
+        outs = it.run_function(f, env={'self': this, '__switch': switch})
+        return f, {(kind, repr(s2.env['__switch'].attrs.get('state')), tuple(repr(x) for x in s2.env.get('__sel', ()))) for kind, s2, v in outs}
+    for cls, val in ((IfTrue, True), (IfFalse, False)):
+        for initial in (True, False):
+            f, got = run_switch(cls, initial)
+            chk.decide(R5, '%s.invoke -> state=%s (from %s)' % (cls.name, val, initial), got, {('return', repr(val), ())},
+                       '%s.invoke on a switch whose state is %s leaves (outcome, state, selections) = %s; expected the shared switch set to %s'
+                       % (cls.name, initial, sorted(got), val), chk.where(f))
+    for initial in (True, False):
+        f, got = run_switch(NewIf, initial)
+        chk.decide(R5, 'NewIf.invoke selects on the switch state (%s)' % initial, got, {('return', repr(initial), (repr(initial),))},
+                   'NewIf.invoke with the switch at %s gives (outcome, state, selections) = %s; expected one selection of %s and the state unchanged'
+                   % (initial, sorted(got), initial), chk.where(f))
